@@ -71,17 +71,13 @@ def make_potential(pspec):
     name, p = pspec
     P = pyPRISM.potential
     kw = dict(p)
-    if name == 'HS':
-        return P.HardSphere(**kw)
-    if name == 'HCLJ':
-        return P.HardCoreLennardJones(**kw)
-    if name == 'EXP':
-        return P.Exponential(**kw)
-    if name == 'LJ':
-        return P.LennardJones(**kw)
-    if name == 'WCA':
-        return P.WeeksChandlerAndersen(**kw)
-    raise KeyError(name)
+    by_attr = kw.pop('sigma_by_attribute', False)     # the explicit sigma is assigned to the object after construction
+    sig = kw.pop('sigma') if (by_attr and 'sigma' in kw) else None
+    cls = {'HS': P.HardSphere, 'HCLJ': P.HardCoreLennardJones, 'EXP': P.Exponential, 'LJ': P.LennardJones, 'WCA': P.WeeksChandlerAndersen}[name]
+    U = cls(**kw)
+    if sig is not None:
+        U.sigma = sig
+    return U
 
 
 def make_omega(ospec, k=None):
@@ -118,6 +114,13 @@ def domain_ok(dom):
     return len(dom.r) == dom.length and len(dom.k) == dom.length
 
 
+def _fresh(t):
+    """An equal but distinct key object (labels built at run time are not the objects stored in the type list)."""
+    if isinstance(t, str) and len(t) > 1:
+        return ''.join(list(t))
+    return t
+
+
 def make_system(spec):
     import pyPRISM
     types = list(spec['types'])
@@ -137,8 +140,8 @@ def make_system(spec):
         sys_ = pyPRISM.System(types, kT=spec['kT'])
         sys_.domain = make_domain(spec['domain'])
         for t in types:
-            sys_.density[t] = spec['density'][t]
-            sys_.diameter[t] = spec['diameter'][t]
+            sys_.density[_fresh(t)] = spec['density'][t]
+            sys_.diameter[_fresh(t)] = spec['diameter'][t]
     plist = [spec['pairs'][pair_key(types, a, b)] for a, b in pairs_of(types)]
     same = all(q['closure'] == plist[0]['closure'] and q['potential'] == plist[0]['potential'] for q in plist)
     bulk = spec.get('style') if (spec.get('style') in ('bulk-list', 'bulk-setunset') and same) else None
@@ -152,9 +155,9 @@ def make_system(spec):
     for a, b in pairs_of(types):
         p = spec['pairs'][pair_key(types, a, b)]
         if bulk is None:
-            sys_.closure[a, b] = make_closure(p['closure'])
-            sys_.potential[a, b] = make_potential(p['potential'])
-        sys_.omega[a, b] = make_omega(p['omega'], sys_.domain.k)
+            sys_.closure[_fresh(a), _fresh(b)] = make_closure(p['closure'])
+            sys_.potential[_fresh(a), _fresh(b)] = make_potential(p['potential'])
+        sys_.omega[_fresh(a), _fresh(b)] = make_omega(p['omega'], sys_.domain.k)
     return sys_
 
 
